@@ -24,6 +24,15 @@ loadstate_t iobuffer::load_buffer(FILE *fin, bool ispadding)
 {
   u32_t load = fread(b, 1, sum, fin);
   bool readover = feof(fin);
+  if ((!ispadding) && (!readover) && (load == sum))
+  {
+    // a full chunk may be the last one: look one byte ahead so that it is marked final
+    int next = fgetc(fin);
+    if (next == EOF)
+      readover = true;
+    else
+      ungetc(next, fin);
+  }
   WENCRY_VERIF_POINT(WV_BUF_LOAD_STEP, this, 0);
   tail = load & 0xf;
   total = load >> 4;
